@@ -156,6 +156,9 @@ def render(e, prof="portable", mode="min"):
         op = e[1]
         p = prec(e)
         return f"{child(e[2], p, False, op)} {op} {child(e[3], p, True, op)}"
+    if k == "raw_fn":
+        # FN(arg ORDER BY col [DESC])
+        return f"{e[1]}({R(e[2])} ORDER BY {R(e[3])}{' DESC' if e[4] else ''})"
     if k == "sdiv":
         # division with SQLite's meaning (NULL for a zero divisor); DuckDB would give inf, so the generator's own DuckDB
         # text writes the guard out
@@ -900,6 +903,20 @@ class Gen:
                 name = self.new_alias("m")
                 q.projs.append((agg, name))
                 q.out.append((name, INT, self.prov(agg, scope)))
+            if f.get("agg_order_by") and keys and self.chance(f["agg_order_by"]):
+                # an aggregate with its own ORDER BY over a column that is also an output name of this SELECT (the key is
+                # projected under its bare name): inside the aggregate the name means the column, not the output
+                kc = keys[0]
+                if not any(n == kc[2] for n, _, _ in q.out) and sum(1 for s2 in scope for c2 in s2.cols if c2[0] == kc[2]) == 1:
+                    q.projs.append((kc, None))
+                    q.out.append((kc[2], kc[3], self.prov(kc, scope)))
+                    arg = self.colref(scope, INT) or ("lit", 1, INT)
+                    ob = ("col", None, kc[2], kc[3], kc[4])
+                    e = ("raw_fn", "ARRAY_AGG", arg, ob, self.chance(0.5))
+                    name = self.new_alias("m")
+                    q.projs.append((e, name))
+                    q.out.append((name, INT, self.prov(arg, scope) | self.prov(ob, scope)))
+                    self.tags.add("agg:order-by-inside")
             if f["having"] and self.chance(0.4):
                 self.tags.add("group:having")
                 q.having = ("bin", self.pick(["=", ">", "<", ">="]), self.agg_expr(scope), ("lit", self.pick([0, 1, 2]), INT))
